@@ -355,6 +355,27 @@ func main() {
 						report("S and D share an inode: %v, predicted: %v", inode(S) == inode(D), fs.I == fd.I)
 					}
 				}
+				// ---- the call after this one: whatever the previous call left behind (a failed one in particular), a plain copy of
+				// a small file to a fresh destination returns nil only with exactly the source's bytes in place
+				for k, psize := range []int{37, 0, 5000} {
+					ps, pd := filepath.Join(d1, fmt.Sprintf("probe%d.src", k)), filepath.Join(d1, fmt.Sprintf("probe%d.dst", k))
+					pb := make([]byte, psize)
+					rng.Read(pb)
+					os.WriteFile(ps, pb, 0o644)
+					var perr error
+					if k == 2 {
+						perr = osutil.MoveFile(ps, pd)
+					} else {
+						_, perr = osutil.CopyFile(ps, pd)
+					}
+					got, rerr := os.ReadFile(pd)
+					if perr != nil {
+						violation("a plain %d-byte copy / move to a fresh destination right after this call failed: %v", psize, perr)
+					} else if rerr != nil || !bytes.Equal(got, pb) {
+						violation("after this call (it returned %v) a plain copy / move of a %d-byte file to a fresh destination returned nil but the destination holds %d bytes that are not the source's",
+							cerr, psize, len(got))
+					}
+				}
 				os.RemoveAll(d1)
 				if d2 != "" {
 					os.RemoveAll(d2)
